@@ -1,16 +1,19 @@
 #!/bin/bash
-# tools/recheck_seeded.sh [pattern] : apply every kept seeded change to a scratch worktree of /repo HEAD and run the check that
-# is recorded as catching it (tools/seed_expect.tsv); prints one line per change. Evidence/replays go to a scratch dir.
+# tools/recheck_seeded.sh [shard nshards] : apply every kept seeded change to a scratch worktree of /repo HEAD and run the
+# check recorded as catching it (tools/seed_expect.tsv), quick tier; one line per change. Evidence/replays go to a scratch dir.
+# Run it from a snapshot of /verif (VERIF_HOME=<worktree of /verif>) when the harness is being edited at the same time:
+# every check copies sim/harness when it starts. Several shards can run side by side (VERIF_WORKERS limits each).
 export GOFLAGS=-mod=mod GOPROXY=off GOSUMDB=off GOTOOLCHAIN=local
-pat="${1:-.}"
+sh=${1:-0}; n=${2:-1}; HOME_V=${VERIF_HOME:-/verif}
 OUT=/tmp/recheck-out-$$; mkdir -p $OUT
-bad=0
-grep -v '^#' /verif/tools/seed_expect.tsv | grep -E "$pat" | while IFS=$'\t' read -r seed chk; do
-  case "$chk" in NONE|THOROUGH:*) echo "$seed: $chk (not run)"; continue;; esac
+i=0
+grep -v '^#' $HOME_V/tools/seed_expect.tsv | while IFS=$'\t' read -r seed chk; do
+  i=$((i+1)); [ $((i % n)) -eq $sh ] || continue
+  case "$chk" in NONE) echo "$seed: documented miss (not run)"; continue;; THOROUGH:*) echo "$seed: thorough only (not run)"; continue;; esac
   WT=/tmp/wt-recheck-$$
   git -C /repo worktree add -q --detach $WT HEAD || exit 2
-  if ! (cd $WT && git apply /verif/seeded/$seed/patch.diff 2>/dev/null); then echo "$seed: PATCH DOES NOT APPLY to HEAD"; git -C /repo worktree remove --force $WT; continue; fi
-  out=$(VERIF_REPO=$WT VERIF_OUT=$OUT /verif/check $chk quick 2>&1); code=$?
+  if ! (cd $WT && git apply $HOME_V/seeded/$seed/patch.diff 2>/dev/null); then echo "$seed: PATCH DOES NOT APPLY to HEAD"; git -C /repo worktree remove --force $WT; continue; fi
+  out=$(VERIF_REPO=$WT VERIF_OUT=$OUT $HOME_V/check $chk quick 2>&1); code=$?
   cls=$(echo "$out" | grep -o "class=[a-z0-9-]*" | sort -u | tr '\n' ' ')
   if [ $code -eq 1 ]; then echo "$seed: caught by $chk ($cls)"; else echo "$seed: MISSED by $chk (exit $code)"; fi
   git -C /repo worktree remove --force $WT
